@@ -87,7 +87,8 @@ def integer(ctx, world, ev):
     esz = gm.attr_of(ev, g, "element_size_bytes", st)
     for o in rets:
         ctx.require(isinstance(o.value, Obj), "arbitrary_element does not return an element object")
-        vals = [v for v in o.state.heap[o.value.oid].values() if v != g]
+        v0 = gm.int_element_value(st, g, o.state, o.value)
+        vals = [v0] if v0 is not None else [App("not-an-element-of-this-group", tuple(v for v in o.state.heap[o.value.oid].values() if v != g))]
         conds = conds_of(o)
         r = mk_app("FloorDiv", (mk_app("Sub", (p, Const(1))), q))
         ok = len(vals) == 1 and is_app(vals[0], "pow") and len(vals[0].args) == 3 and vals[0].args[1] == r and vals[0].args[2] == p \
